@@ -21,6 +21,9 @@
 //	N6  a package-level `const name = <basic literal>` (string, character or number; no iota, no type) that the pinned
 //	    source does not declare (table `baselineGlobals`) is replaced by its value wherever the name is used and the
 //	    function does not declare the name itself: constants are values.
+//	N7  `panic(s1 + e + s2 …)`, a concatenation with at least one string literal, is `panic(fmt.Sprintf("s1%ss2…", e, …))`:
+//	    every operand of a string concatenation is a string, for which `%s` is the identity (a `%` inside a literal is
+//	    written `%%`).  The panic value is the same string.
 package main
 
 import (
@@ -28,6 +31,7 @@ import (
 	"go/token"
 	"reflect"
 	"strconv"
+	"strings"
 )
 
 type normalizer struct {
@@ -403,6 +407,47 @@ func normalizeForms(files []*ast.File) []string {
 					}
 				}
 				return e
+			})
+			// N7
+			ast.Inspect(fd.Body, func(n ast.Node) bool {
+				call, ok := n.(*ast.CallExpr)
+				if !ok || !isIdent(call.Fun, "panic") || len(call.Args) != 1 {
+					return true
+				}
+				var parts []ast.Expr
+				var flat func(e ast.Expr) bool
+				flat = func(e ast.Expr) bool {
+					e = unparen(e)
+					if b, ok := e.(*ast.BinaryExpr); ok {
+						if b.Op != token.ADD {
+							return false
+						}
+						return flat(b.X) && flat(b.Y)
+					}
+					parts = append(parts, e)
+					return true
+				}
+				if _, isBin := unparen(call.Args[0]).(*ast.BinaryExpr); !isBin || !flat(call.Args[0]) {
+					return true
+				}
+				format, nlit := "", 0
+				var args []ast.Expr
+				for _, p := range parts {
+					if lit, ok := stringLit(p); ok {
+						format += strings.ReplaceAll(lit, "%", "%%")
+						nlit++
+					} else {
+						format += "%s"
+						args = append(args, p)
+					}
+				}
+				if nlit == 0 {
+					return true
+				}
+				nargs := append([]ast.Expr{&ast.BasicLit{Kind: token.STRING, Value: strconv.Quote(format)}}, args...)
+				call.Args = []ast.Expr{&ast.CallExpr{Fun: &ast.SelectorExpr{X: ast.NewIdent("fmt"), Sel: ast.NewIdent("Sprintf")}, Args: nargs}}
+				nz.log = append(nz.log, "N7 "+fd.Name.Name)
+				return false
 			})
 			log = append(log, nz.log...)
 		}
